@@ -405,6 +405,12 @@ impl G {
                             attrs.push(format!("missing_field_error = subjects::vf::{f}::<__Deserr_E>"));
                             def.missing_fn = Some(f.into());
                         }
+                        // both on one field: the default wins and the function is never called
+                        if def.default.is_some() && def.missing_fn.is_none() && self.rng.chance(1, 5) {
+                            let f = if self.rng.chance(1, 2) { "missing_mf" } else { "missing_unexp" };
+                            attrs.push(format!("missing_field_error = subjects::vf::{f}::<__Deserr_E>"));
+                            def.missing_fn = Some(f.into());
+                        }
                         if let Some(m) = map_fn(&final_ty) {
                             if self.rng.chance(1, 6) {
                                 attrs.push(format!("map = subjects::vf::{m}"));
